@@ -56,6 +56,9 @@ type Strategy struct {
 	EnvBias   float64 // probability of preferring an environment action when both kinds are enabled
 	TimeRace  float64 // probability of advancing the clock although other work exists
 	TimeSteps []time.Duration
+	// Starve: a goroutine parked at a site whose name contains this string is only run when nothing else (goroutine or
+	// environment action) is enabled: a loop that has fallen behind, as under a burst or a slow dependency
+	Starve string `json:",omitempty"`
 }
 
 // Sim drives one run.
@@ -65,9 +68,10 @@ type Sim struct {
 	RNG   *RNG // search policy randomness (separate stream from workload generation)
 	Strat Strategy
 
-	parked []simrt.ParkReq
-	last   *simrt.G
-	Start  time.Time
+	parked      []simrt.ParkReq
+	last        *simrt.G
+	Start       time.Time
+	TimerStarts map[string]time.Duration
 
 	Steps     int
 	MaxSteps  int
@@ -136,6 +140,7 @@ func (s *Sim) collect() {
 		select {
 		case p := <-s.R.Req:
 			s.parked = append(s.parked, p)
+			s.noteStart(p)
 			s.R.Hit(p.Site)
 		default:
 			sort.SliceStable(s.parked, func(i, j int) bool { return s.parked[i].G.Name < s.parked[j].G.Name })
@@ -185,6 +190,17 @@ func (s *Sim) Step(w World, allowTime bool) bool {
 	}
 	gi := s.enabledG()
 	env := w.EnvActions()
+	if s.Strat.Starve != "" {
+		var keep []int
+		for _, i := range gi {
+			if !strings.Contains(s.parked[i].Site, s.Strat.Starve) {
+				keep = append(keep, i)
+			}
+		}
+		if len(keep) > 0 || len(env) > 0 {
+			gi = keep
+		}
+	}
 	type cand struct {
 		name string
 		g    int // index into parked, or -1
@@ -253,6 +269,11 @@ func (s *Sim) Step(w World, allowTime bool) bool {
 		s.last = p.G
 		s.lastSite = p.Site
 		s.LastAt[p.G.Name] = p.Site
+		// Running code takes time. With a clock that stands still while goroutines run, a loop that waits for an
+		// instant to pass (`if !now.After(deadline) { timer.Reset(Until(deadline)) }`) never ends when it is
+		// entered exactly at the deadline - which happens when two timers are due within the scheduler's own
+		// microsecond of lateness. One nanosecond per step is enough to rule that out.
+		time.Sleep(time.Nanosecond)
 		s.R.Release(p)
 	default:
 		a := env[c.e]
@@ -306,6 +327,7 @@ func (s *Sim) advance(d time.Duration) bool {
 	case p := <-s.R.Req:
 		t.Stop()
 		s.parked = append(s.parked, p)
+		s.noteStart(p)
 		s.R.Hit(p.Site)
 		// A real timer never fires early and practically never exactly on time. The fake clock stops
 		// exactly at the deadline, which turns code like `if now.After(deadline)` + `Reset(Until(deadline))`
@@ -390,4 +412,17 @@ func shortName(n string) string {
 		return n[i+1:]
 	}
 	return n
+}
+
+// noteStart remembers the fake time at which each timer callback of the system began to run (its first park point):
+// that is when the timer fired, whatever happened to the clock before the callback got anything done.
+func (s *Sim) noteStart(p simrt.ParkReq) {
+	if p.Kind == simrt.KStart && strings.HasPrefix(p.G.Name, "timer:") {
+		if s.TimerStarts == nil {
+			s.TimerStarts = map[string]time.Duration{}
+		}
+		if _, ok := s.TimerStarts[p.G.Name]; !ok {
+			s.TimerStarts[p.G.Name] = s.Now()
+		}
+	}
 }
